@@ -6,3 +6,5 @@ open Cst.C08
 #print axioms facts_sound
 #print axioms markers_sound_impl
 #print axioms unbounded_is_unsound
+#print axioms text_sound
+#print axioms kind_irrelevant
